@@ -70,6 +70,10 @@ def gen_cases(tier, seed):
         if comp and r.random() < 0.6:
             # rank-4 tensors: several candidate index maps per term pair
             names = ['V', 't1', 'Y', 'v', 'g'] + r.sample(['f', 'x', 'd'], 1)
+        elif not comp and r.random() < 0.2:
+            # tensors without any symmetry only: nothing but the index pattern
+            # distinguishes a term from its transposed partner
+            names = ['x', 'y', 'z']
         unit_diff = comp and r.random() < 0.12
         if unit_diff:
             # a single object (trace, partial trace, power) whose two copies get
@@ -135,6 +139,21 @@ def gen_cases(tier, seed):
                     t2['pref'] = f"({t2['pref']})*({c})*({sign})"
                 else:
                     t2['pref'] = f"({first['pref']})*({c})*({sign})"
+                terms.append(t2)
+        elif r.random() < 0.15 and len(targets) >= 2:
+            # the partner term with two target indices of one space exchanged
+            # (transposed term): only equal if the term is symmetric in them
+            by = {}
+            for t_ in targets:
+                n_, sp_ = ir.split_index(t_)
+                by.setdefault((ir.index_space(n_), sp_), []).append(t_)
+            groups = [v for v in by.values() if len(v) >= 2]
+            if groups:
+                a_, b_ = r.sample(r.choice(groups), 2)
+                t2 = ir.rename_term(first, {a_: b_, b_: a_})
+                t2, sign, _ = g.alpha_rename(t2, targets)
+                t2['pref'] = f"({first['pref']})*({r.choice(['1', '-1'])})" \
+                             f"*({sign})"
                 terms.append(t2)
         else:
             nterms = r.randint(1, 4 if tier == 'quick' else 6)
